@@ -18,6 +18,8 @@ def hostile_trace(rng, n):
         if r < 0.03:
             img = ic.random_image(rng, biased=rng.random() < 0.5, n=rng.choice([5, 60, 237]))
             ops.append({"op": "load", "image": img, "ss": rng.choice([0, 16, 32, 48, 64]), "ps": rng.choice([-1, 0, 3, len(img), 255])})
+        elif r < 0.07:
+            ops += [{"op": "mode", "v": "Assembly"}, {"op": "key_clock", "n": rng.randrange(1, 12)}, {"op": "mode", "v": "Real"}]
         elif r < 0.55:
             ops.append({"op": "edge", "n": rng.randrange(1, 25)})
         elif r < 0.6:
@@ -73,6 +75,9 @@ def run(tier, seed, replay):
     rng = random.Random(seed)
     nt, n = (4, 400) if tier == "quick" else (32, 900)
     traces = [vlib.run_scenario(hostile_trace(rng, n), "c13-%d" % i)[0] for i in range(nt)]
+    # the longest instructions with a key interrupt pending, stepped in assembly mode (instruction + interrupt entry in one call)
+    from checks import c11
+    traces.append(vlib.run_scenario(c11.long_instruction_trace(), "c13-long")[0])
     results = vlib.validate_traces(traces, cfg="TraceMachine")
     nev = ic.report_trace_results(v, traces, results, "totaltrace", "hostile-stimulus")
     cov = {
@@ -81,7 +86,7 @@ def run(tier, seed, replay):
         "driver_calls": total, "driver_image_loads": sum(o["loads"] for o in outs), "trace_events_validated": nev, "exhaustive": False,
         "evaluations": total, "distinct_nontrivial": sum(o["loads"] for o in outs),
         "rule": "spec: TypeOK under TLC -simulate with hostile values (every action always enabled); code: %d processes x %d random calls "
-                "(loads of uniform / opcode-biased images with all stack sizes and limits, edges, key interrupt, continue, resets, setters with raw f32 bit "
+                "(whole assembly-mode steps under a watchdog, loads of uniform / opcode-biased images with all stack sizes and limits, edges, key interrupt, continue, resets, setters with raw f32 bit "
                 "patterns, direct bus reads/writes) each under catch_unwind with overflow checks and debug assertions on, getters + one more edge after "
                 "every call; distinct_nontrivial counts distinct loaded images; a sample of interleavings validated event by event" % (procs, calls),
     }
